@@ -32,7 +32,7 @@ CHECKS = {
         ref="DESIGN.md section 5 C12"),
     "C13": dict(
         technique="Coq proof (unconditional structural facts: an error answer leads to Ret Fault after releasing the lock; lock discipline; goodness for error answers) + fault injection at every file operation (singles and pairs)",
-        text="C13_fault_ends_the_piece and C13_no_lock_leaked hold for every piece with no hypothesis; C13_ops_before_fault_good; the fs shim fails the k-th operation (open, fstat, read, create_dir_all, set_len, seek, write; pairs too) and each faulty run is replayed against the model and checked for confinement, counters and byte correctness. WHOLE RUN (SystemModel/SystemProofs/GlueProofs): the scanning phase is a transition system (pool of piece programs over one shared file system; steps = any program's next action, failed operations, arbitrary read answers, a write cut short); C13_whole_run_other_pieces_unaffected: after any failures every program still in the pool is good. C13_failure_elsewhere_costs_nothing: with every OTHER program free to fault or be cut, a piece that stays available can still only return Success and is then in place (rely/guarantee, CompleteProofs.v).",
+        text="C13_whole_run_failures_elsewhere_any_schedule: the same END-TO-END statement with every evaluation but the one of piece i free to fail, be answered arbitrarily or be cut in the middle of a write (pstep_but i), under every schedule of the composed executor. C13_fault_ends_the_piece and C13_no_lock_leaked hold for every piece with no hypothesis; C13_ops_before_fault_good; the fs shim fails the k-th operation (open, fstat, read, create_dir_all, set_len, seek, write; pairs too) and each faulty run is replayed against the model and checked for confinement, counters and byte correctness. WHOLE RUN (SystemModel/SystemProofs/GlueProofs): the scanning phase is a transition system (pool of piece programs over one shared file system; steps = any program's next action, failed operations, arbitrary read answers, a write cut short); C13_whole_run_other_pieces_unaffected: after any failures every program still in the pool is good. C13_failure_elsewhere_costs_nothing: with every OTHER program free to fault or be cut, a piece that stays available can still only return Success and is then in place (rely/guarantee, CompleteProofs.v).",
         ref="DESIGN.md section 5 C13"),
     "C14": dict(
         technique="Coq proof (prelude program evaluated against an arbitrary probe-answer function: abort with no mutation on any over-long file; exactly the shorter files extended to the declared length; no mutation without the flag) + pre-flight oracle + prelude trace validation",
@@ -52,7 +52,7 @@ CHECKS = {
         ref="DESIGN.md section 5 C04", note="'verifies' for the no-rewrite clause = export files of the declared length (exact reading); preservation/monotonicity use the loose reading."),
     "C05": dict(
         technique="Coq proof (labelled transition system of the executor with one-at-a-time lock release: 18-field invariant, conservation, exactly-once, deadlock freedom, strictly decreasing measure; concrete rebalancing relation proved a permutation / even) + refinement proof of an executable replay (ExecRun.xstep) + replay of the synchronisation log of every deterministic-scheduler run of the real executor through it",
-        text="C05_composed_* (ComposeProofs.v): the executor model and the system of piece programs composed as in the code (the worker that popped piece w performs the steps of w's program, then 'solved'): every composed run is a run of both models, it terminates, never gets stuck, complete runs exist, and when all workers are done every piece's program has returned, each evaluated by exactly one worker. C05_every_evaluation_terminates (TerminationProofs.v): the transition system of the scanning phase (all interleavings, faults, cut writes) has no infinite path; C05_fault_free_run_completes / C05_stuck_means_all_returned: runs can always be completed and then every evaluation has returned. C05_work_conserved, C05_exactly_once, C05_deadlock_free, C05_terminates hold for every thread count and every reachable state, i.e. every interleaving, with no fairness assumption (a measure decreases at every step); C05_balance_* prove the concrete balance a permutation that fills queues evenly. The real executor is driven through seeded schedules by the sync shim (every lock/try_lock/unlock/spawn/join/exit a scheduling point) and with real threads; each run is replayed against the model and checked for completion, exactly-once, mutual exclusion and identical trees. C05_accepted_log_is_model_path: the lock / try_lock / unlock operations on the queue and state locks, the piece scope markers and the queue dump of every balance() of each scheduled run are replayed through the extracted xstep (silent decisions + one step per synchronisation operation; the balance result is checked against BalanceModel.balance with a witness for the hash-map order), and every accepted log is proved to be a path of ExecModel.step from the initial state.",
+        text="C05_whole_run_any_schedule (WholeRunProofs.v): END TO END for a run of loadable torrents set up by the model's own functions, n workers, fault-free composition of executor and evaluations: complete runs exist, every run terminates, every complete run evaluated every piece exactly once and each piece whose data is present ended in Success and is in place. C05_composed_* (ComposeProofs.v): the executor model and the system of piece programs composed as in the code (the worker that popped piece w performs the steps of w's program, then 'solved'): every composed run is a run of both models, it terminates, never gets stuck, complete runs exist, and when all workers are done every piece's program has returned, each evaluated by exactly one worker. C05_every_evaluation_terminates (TerminationProofs.v): the transition system of the scanning phase (all interleavings, faults, cut writes) has no infinite path; C05_fault_free_run_completes / C05_stuck_means_all_returned: runs can always be completed and then every evaluation has returned. C05_work_conserved, C05_exactly_once, C05_deadlock_free, C05_terminates hold for every thread count and every reachable state, i.e. every interleaving, with no fairness assumption (a measure decreases at every step); C05_balance_* prove the concrete balance a permutation that fills queues evenly. The real executor is driven through seeded schedules by the sync shim (every lock/try_lock/unlock/spawn/join/exit a scheduling point) and with real threads; each run is replayed against the model and checked for completion, exactly-once, mutual exclusion and identical trees. C05_accepted_log_is_model_path: the lock / try_lock / unlock operations on the queue and state locks, the piece scope markers and the queue dump of every balance() of each scheduled run are replayed through the extracted xstep (silent decisions + one step per synchronisation operation; the balance result is checked against BalanceModel.balance with a witness for the hash-map order), and every accepted log is proved to be a path of ExecModel.step from the initial state.",
         ref="DESIGN.md section 5 C05", note="std Mutex/thread semantics and the memory model are assumed; the shim assumes sequential consistency at scheduling points."),
     "C06": dict(
         technique="Coq proof (induction over the cursor loop, closed-form interval spec) + differential run of the extracted model against Pieces::from_torrent",
